@@ -9,6 +9,7 @@ import (
 	"github.com/RoaringBitmap/roaring/v2"
 	"pgregory.net/rapid"
 
+	"verifharness/gen"
 	"verifharness/inst"
 	"verifharness/live"
 	"verifharness/model"
@@ -147,6 +148,17 @@ func propC13(t *rapid.T) {
 	}
 	runtime.KeepAlive(lv)
 	inst.Case("C13", len(kinds) >= 2, desc)
+	// "supports all read and (copying) write operations": one case in four, the library-written frozen
+	// bytes go through the whole zero-copy operation machine (set algebra with related operands in both
+	// roles, chunk-emptying range removals, derived bitmaps, detaching) with the structural buffer oracle
+	if m.Card() <= 400000 && len(ch) <= 64 && rapid.IntRange(0, 3).Draw(t, "machine") == 0 {
+		var bs gen.BitmapSpec
+		bs.Chunks = ch
+		for range ch {
+			bs.Shapes = append(bs.Shapes, "frozen-by-library")
+		}
+		zcMachine(t, "C13", eFrozenView, append([]byte(nil), fr...), bs)
+	}
 }
 
 func TestC13(t *testing.T) { rapid.Check(t, propC13) }
